@@ -19,6 +19,9 @@ from .common import listlit, strlit
 from .c11 import Net, gen_topo, mk_request, eqpt, line_elements, simple_paths_sites
 
 CUTOFF = 80
+# False = requests_aggregation of /repo as it is today (findings K2, K3); set to True together with the fix: commit
+# (same_disj compares group shapes, every group naming the old id is deleted): model aggregate_fixed in Model/Disjoint.v
+AGG_FIXED = False
 
 
 # ------------------------------------------------------------------ generator
@@ -197,7 +200,7 @@ def coq_term(N, reqs, groups, obs):
         o = 'DError'
     else:
         o = 'DOther'
-    return (f'run_dis {N.coq_graph()} {N.coq_kinds()} {N.coq_oms()} {CUTOFF}%nat {listlit(rqs)} {listlit(declared)} '
+    return (f'run_dis {"true" if AGG_FIXED else "false"} {N.coq_graph()} {N.coq_kinds()} {N.coq_oms()} {CUTOFF}%nat {listlit(rqs)} {listlit(declared)} '
             f'{zl(obs["dedup"])} {listlit([rid_lit(i) for i in obs["ids"]])} '
             f'{listlit([grp_lit(g, m) for g, m in obs["groups"]])} {o}')
 
@@ -220,6 +223,8 @@ def judge(ctx, N, case, reqs, groups, obs, line):
     cov_obs, nostale_obs, cov_model, nostale_model = f['f'].split(',')
     aggregated = len(obs['ids']) < len(reqs)
     ctx.count('aggregated_batches' if aggregated else 'plain_batches')
+    if len(obs['dedup']) < len(groups):
+        ctx.count('batches_with_duplicate_groups_removed')
     flags = {'cov_obs': cov_obs, 'nostale_obs': nostale_obs, 'aggregated': aggregated, 'out': obs['out']}
     v = f['v'].split(',')
     if v[0] == 'P':
@@ -295,42 +300,48 @@ def run(ctx):
     else:
         for fpath in sorted(glob.glob(os.path.join(common.VERIF, 'corpus', 'C12', '*.json'))):
             cases.append(json.load(open(fpath)))
-        cases += [gen_case(rng) for _ in range(ctx.scale(230, 3000))]
-    terms, meta, isd_cases, short_terms, short_meta = [], [], [], [], []
-    for c in cases:
-        N = Net(c['topo'])
-        if c.get('requests') is None:
-            reqs, groups = gen_batch(rng, N)
-        else:
-            reqs, groups = c['requests'], c['groups']
-        case = {'topo': c['topo'], 'requests': reqs, 'groups': groups}
-        obs = drive(N, reqs, groups)
-        if obs['out'] == 'skip':
-            ctx.count('skipped_service_error')
-            continue
-        nontriv = len(groups) > 1 or any(r['nodes'] for r in reqs) or len(obs['ids']) < len(reqs)
-        ctx.case(case, nontriv)
-        ctx.count('groups_%d' % len(groups))
-        ctx.count('group_sizes', sum(len(g['reqs']) for g in groups))
-        for r in reqs:
-            ctx.count('style_' + r['style'])
-        terms.append(coq_term(N, reqs, groups, obs))
-        meta.append((N, case, reqs, groups, obs))
-        # isdisjoint on the lists gnpy really compared, and the short list of the first candidate of each request
-        for p1, p2, res in obs['isd_calls']:
-            isd_cases.append((p1, p2, res, case))
-        if obs['isd_calls'] and obs['frp']:
-            by = {}
-            for fwd, rev in obs['frp']:
-                by.setdefault((fwd[0], fwd[-1]), []).append((fwd, rev))
-            sel = [p for lst in by.values() for pr in lst[:8] for p in pr]
-            short_terms.append(f'run_short {N.coq_graph()} {N.coq_kinds()} {N.coq_oms()} {listlit([zl(p) for p in sel])}')
-            short_meta.append((case, obs))
-    lines = common.coq_eval('C12', 'Prelude Model.Route Model.Disjoint Run.C11 Run.C12', terms, per_file=ctx.scale(16, 24))
-    for (N, case, reqs, groups, obs), line in zip(meta, lines):
-        judge(ctx, N, case, reqs, groups, obs, line)
+        cases += [gen_case(rng) for _ in range(ctx.scale(170, 3000))]
+    isd_cases, short_terms, short_meta = [], [], []
+    chunk = 250                                               # bounded number of live gnpy networks
+    for k0 in range(0, len(cases), chunk):
+        terms, meta = [], []
+        for c in cases[k0:k0 + chunk]:
+            N = Net(c['topo'])
+            if c.get('requests') is None:
+                reqs, groups = gen_batch(rng, N)
+            else:
+                reqs, groups = c['requests'], c['groups']
+            case = {'topo': c['topo'], 'requests': reqs, 'groups': groups}
+            obs = drive(N, reqs, groups)
+            if obs['out'] == 'skip':
+                ctx.count('skipped_service_error')
+                continue
+            nontriv = len(groups) > 1 or any(r['nodes'] for r in reqs) or len(obs['ids']) < len(reqs)
+            ctx.case(case, nontriv)
+            ctx.count('groups_%d' % len(groups))
+            ctx.count('group_sizes', sum(len(g['reqs']) for g in groups))
+            for r in reqs:
+                ctx.count('style_' + r['style'])
+            terms.append(coq_term(N, reqs, groups, obs))
+            meta.append((N, case, reqs, groups, obs))
+            # isdisjoint on the lists gnpy really compared, and the short list of the first candidates of each request
+            if len(isd_cases) < ctx.scale(3000, 12000):
+                for p1, p2, res in obs['isd_calls']:
+                    isd_cases.append((p1, p2, res, case))
+            if obs['isd_calls'] and obs['frp'] and len(short_terms) < ctx.scale(24, 300):
+                by = {}
+                for fwd, rev in obs['frp']:
+                    by.setdefault((fwd[0], fwd[-1]), []).append((fwd, rev))
+                sel = [p for lst in by.values() for pr in lst[:8] for p in pr]
+                short_terms.append(f'run_short {N.coq_graph()} {N.coq_kinds()} {N.coq_oms()} {listlit([zl(p) for p in sel])}')
+                short_meta.append((case, {'isd_calls': obs['isd_calls']}))
+            obs.pop('frp', None)
+        lines = common.coq_eval('C12', 'Prelude Model.Route Model.Disjoint Run.C11 Run.C12', terms, per_file=16)
+        for (N, case, reqs, groups, obs), line in zip(meta, lines):
+            judge(ctx, N, case, reqs, groups, obs, line)
+        del terms, meta
     # ---- isdisjoint correspondence (real arguments + random integer lists)
-    for _ in range(ctx.scale(300, 3000)):
+    for _ in range(ctx.scale(200, 3000)):
         a = [rng.randint(0, 6) for _ in range(rng.randint(0, 7))]
         b = [rng.randint(0, 6) for _ in range(rng.randint(0, 7))]
         if rng.random() < 0.3 and len(a) > 1:
@@ -349,7 +360,7 @@ def run(ctx):
             ctx.count('isdisjoint_calls')
             if str(res) != m:
                 ctx.corr_break('corr:Disjoint.isdisjoint', f'isdisjoint({a},{b})', case or {'lists': [a, b]}, impl=res, model=m)
-    sample = short_terms[:ctx.scale(40, 300)]
+    sample = short_terms
     outs = common.coq_eval('C12', 'Prelude Model.Route Model.Disjoint Run.C11 Run.C12', sample, per_file=4, tag='short')
     for (case, obs), out in zip(short_meta, outs):
         model_shorts = set(out.split(';'))
